@@ -261,6 +261,11 @@ def rule_c12_r1(model: Model) -> RuleResult:
                 for sub in walk_no_nested(root):
                     if isinstance(sub, ast.Subscript) and unparse(sub.value) == 'self.tag_map' and isinstance(sub.slice, ast.Name):
                         tag_var = sub.slice.id
+                    # ... or through a helper of the class whose result is that look-up (self._index_of(tag))
+                    if isinstance(sub, ast.Call) and isinstance(sub.func, ast.Attribute) and isinstance(sub.func.value, ast.Name) \
+                            and sub.func.value.id == 'self' and len(sub.args) == 1 and isinstance(sub.args[0], ast.Name) and not sub.keywords \
+                            and nz.expr(sub, n).startswith('self.tag_map['):
+                        tag_var = sub.args[0].id
                     if isinstance(sub, ast.Call) and isinstance(sub.func, ast.Attribute) and sub.func.attr in ('try_convert', 'collect_errors') \
                             and unparse(sub.func.value).startswith('self.converters[') and sub.args and isinstance(sub.args[0], ast.Name):
                         body_var = sub.args[0].id
@@ -455,4 +460,44 @@ def rule_c12_r6(model: Model) -> RuleResult:
             r.ok()
     if r.instances == 0:
         raise AnalysisError(f"{uw.loc()}: no union subclass with an attribute-reading writer found (TaggedUnionConverter vanished?)")
+    return r
+
+
+def rule_c12_r7(model: Model) -> RuleResult:
+    """C12: the variant is chosen by a tag of the declared kind: equality alone would let True / 1.0 select the variant tagged 1."""
+    r = RuleResult('C12-R7', "wherever a tag taken from the data is looked up in the tag table, its kind is compared with the declared tag's "
+                             "(an equal tag of another kind is refused)", floor=1)
+    cls = model.cls(TAGGED)
+    n_sites = 0
+    for f in cls.methods.values():
+        if f.name in ('__init__', 'into_data') or not isinstance(f.node, ast.FunctionDef):
+            continue
+        cfg = cfg_of(model, f)
+        nz = Normalizer(model, f, cfg, param_map=_pm(f))
+        for n in cfg.live_nodes():
+            for root in node_exprs(n):
+                for x in walk_no_nested(root):
+                    if isinstance(x, ast.Subscript) and isinstance(x.ctx, ast.Load) and nz.expr(x.value, n) == 'self.tag_map':
+                        n_sites += 1
+                        r.instances += 1
+                        r.analysed.add(f.qualname)
+                        key = nz.expr(x.slice, n)
+                        # a test of the key's kind whose passing edge dominates every normal return
+                        tests = []
+                        for a in cfg.nodes:
+                            if a.kind == 'cond' and a.ast is not None:
+                                text, pos = nz.literal(a.ast, a)
+                                if re.search(r'\btype\(' + re.escape(key) + r'\)', text) and ' is ' in text:
+                                    tests.append((a, 'T' if pos else 'F'))
+                        rets = [m for m in cfg.live_nodes() if m.kind == 'return' and m.ast is not None and m.ast.value is not None]
+                        ok = bool(tests) and bool(rets) and all(any(cfg.edge_dominates(a, lb, m) for (a, lb) in tests) for m in rets)
+                        r.sample({'function': f.qualname, 'lookup': f"self.tag_map[{key}]", 'kind test': ok})
+                        if ok:
+                            r.ok()
+                        else:
+                            r.fail(f.qualname, f"self.tag_map[{key}] without a test of the tag's kind", f.loc(x),
+                                   "the tag table is keyed by == / hash: {'k': True} and {'k': 1.0} select the variant declared with tag 1 "
+                                   "instead of being refused as ill-kinded tags")
+    if n_sites == 0:
+        raise AnalysisError(f"{cls.qualname}: no look-up of a data tag in self.tag_map found")
     return r
